@@ -5,6 +5,7 @@ package main
 // (The deductive part — contracts on findFeatures, GenerateFile, rewriteMessageField — is added by handParts.)
 
 import (
+	"golang.org/x/tools/go/packages"
 	"encoding/base64"
 	"fmt"
 	"strings"
@@ -36,7 +37,7 @@ func init() {
 				detail = detail[:i]
 			}
 			rb, _ := proto.Marshal(req)
-			rep.Grounds = append(rep.Grounds, Ground{Name: "plugin/" + fd.GetName() + "/answers-with-sources", OK: err == nil && perr == "" && len(files) > 0,
+			rep.Grounds = append(rep.Grounds, Ground{Name: "plugin/" + fd.GetName() + "/answers-with-sources", OK: err == nil && perr == "" && len(files) == 1,
 				Text: "the plugin answers a valid proto3 request with generated sources (no error, no crash)", Detail: detail,
 				Tag: map[string]string{"request_b64": base64.StdEncoding.EncodeToString(rb), "kind": "plugin-request"}})
 		}
@@ -85,9 +86,19 @@ func init() {
 		// file is how protoc drives plugins for packages spread over directories): needed for "the output works"
 		rep.Grounds = append(rep.Grounds, independenceGrounds(plugin, false)...)
 		// type-check of everything generated (one scratch module)
-		if _, err := loadFreshTargets(rep); err != nil {
+		if fts, err := loadFreshTargets(rep); err != nil {
 			rep.Grounds = append(rep.Grounds, Ground{Name: "compile/fresh-module", OK: false, Text: "generated sources type-check", Detail: err.Error()})
 		} else {
+			// "… and works": the type tables of the freshly generated packages pair every Go type and every type reference
+			// with its own descriptor (a package whose tables are shifted compiles and loads, and then answers with
+			// the wrong types)
+			seen := map[*packages.Package]bool{}
+			for _, t := range fts {
+				if !seen[t.ms.Pkg] {
+					seen[t.ms.Pkg] = true
+					rep.Grounds = append(rep.Grounds, typeTableGrounds(t.ms.Pkg)...)
+				}
+			}
 			rep.Grounds = append(rep.Grounds, Ground{Name: "compile/fresh-module", OK: true, Text: "generated sources of the corpus and of the regenerated checked-in schemas type-check (go/packages, go/types)"})
 		}
 		// names colliding with protoreflect.Message methods: fields are renamed by rewriteMessageField, oneofs must be too
